@@ -212,6 +212,11 @@ func writeSrcFacts(outdir string) error {
 								}
 							}
 						}
+					case *ast.RangeStmt:
+						// what the evaluator ranges over: maps are visited in a random order
+						if fn == "state.validate" {
+							ranges = append(ranges, site{fn, exprString(y.X)})
+						}
 					case *ast.CallExpr:
 						if id, ok := y.Fun.(*ast.Ident); ok && (id.Name == "panic" || id.Name == "assert") {
 							panics = append(panics, site{fn, id.Name})
@@ -273,7 +278,24 @@ func writeSrcFacts(outdir string) error {
 		fmt.Fprintf(&b, "(%s, %d%%nat)", coqStr(k), count[k])
 	}
 	b.WriteString(" ].\n")
-	_ = ranges
+	// the expressions (*state).validate ranges over
+	rset := map[string]bool{}
+	for _, r := range ranges {
+		rset[r.kind] = true
+	}
+	rkeys := make([]string, 0, len(rset))
+	for k := range rset {
+		rkeys = append(rkeys, k)
+	}
+	sort.Strings(rkeys)
+	b.WriteString("\nDefinition src_validate_ranges : list str :=\n  [ ")
+	for i, k := range rkeys {
+		if i > 0 {
+			b.WriteString(";\n    ")
+		}
+		b.WriteString(coqStr(k))
+	}
+	b.WriteString(" ].\n")
 	// writes through receivers, parameters and package variables, in the files Validate,
 	// ApplyDefaults, Marshal and CloneSchemas run through; sync.Map method calls on package variables
 	wkeys := make([]string, 0, len(writes))
